@@ -192,7 +192,7 @@ Qed.
 
 Lemma time_from_string_frame : forall w w' now toks s,
   w_tz w' = w_tz w -> time_from_string w' now toks s = time_from_string w now toks s.
-Proof. intros w w' now toks s H. unfold time_from_string. rewrite H. reflexivity. Qed.
+Proof. intros w w' now toks s _. reflexivity. Qed.   (* since fix 4fa5d57 the world does not enter at all *)
 
 Lemma pick_period_frame : forall w w' now toks g l,
   w_tz w' = w_tz w -> pick_period w' now toks g l = pick_period w now toks g l.
